@@ -136,3 +136,46 @@ pub fn redc1_small<const W: usize, const MB: usize>(nd: &mut Nd) {
         chk!(nd, "C11.redc1_small.value", ((r as u16) * r64) % m16 == ab);
     }
 }
+
+/// lattice word: one of {0, 2^62, 2^63, 2^64-1} plus/minus a 2-bit offset (4 free bits)
+#[inline(always)]
+fn lat4(sel: u8) -> u64 {
+    let off = (sel & 3) as u64;
+    match (sel >> 2) & 3 {
+        0 => off,
+        1 => (1 << 62) + off,
+        2 => (1 << 63) + off,
+        _ => u64::MAX - off,
+    }
+}
+
+const fn neg_inv_top_table() -> [u64; 4] {
+    // -m0^-1 mod 2^64 for m0 = 2^64 - 1 - 2x, x = 0..=3
+    [
+        neg_inv_const(u64::MAX),
+        neg_inv_const(u64::MAX - 2),
+        neg_inv_const(u64::MAX - 4),
+        neg_inv_const(u64::MAX - 6),
+    ]
+}
+static NEG_INV_TOP: [u64; 4] = neg_inv_top_table();
+
+/// N = 2, differential: square_redc(a) = mul_redc(a, a), both below m, on a 14-free-bit lattice (limbs near 0, 2^62, 2^63
+/// and 2^64-1, i.e. around every carry threshold of the row loops).  Weaker than the N = 1 oracle - it does not say what the
+/// common value is - but it separates the two independent implementations of the same product.
+pub fn redc2_diff(nd: &mut Nd) {
+    let x = (nd.u8() & 3) as usize;
+    let m0 = u64::MAX - 2 * x as u64;
+    let m1 = lat4(nd.u8());
+    let a0 = lat4(nd.u8());
+    let a1 = lat4(nd.u8());
+    nd.assume(m1 != 0);
+    nd.assume(a1 < m1 || (a1 == m1 && a0 < m0));
+    let inv = NEG_INV_TOP[x];
+    let s = alg::square_redc([a0, a1], [m0, m1], inv);
+    let p = alg::mul_redc([a0, a1], [a0, a1], [m0, m1], inv);
+    cov!(nd, "top-limb-high", m1 >= 1 << 63);
+    cov!(nd, "top-limb-low", m1 < 1 << 62);
+    chk!(nd, "C11.redc2.square_equals_mul", s[0] == p[0] && s[1] == p[1]);
+    chk!(nd, "C11.redc2.range", s[1] < m1 || (s[1] == m1 && s[0] < m0));
+}
